@@ -599,13 +599,10 @@ namespace link_layer {
         // invalid LLID
         if ( ( header & 0x3 ) != 0 )
         {
+            // Data send by this device can be acknowledged by the PDU, but the PDU itself is not. If the PDU is not a
+            // resent one, it is new and was not received: the expected sequence number must not change, for the PDU to be
+            // sent again.
             acknowledge( header & nesn_flag );
-
-            // resent PDU?
-            if ( static_cast< bool >( header & sn_flag ) == next_expected_sequence_number_ )
-            {
-                next_expected_sequence_number_ = !next_expected_sequence_number_;
-            }
         }
 
         return next_transmit();
